@@ -7,7 +7,7 @@ package protocol
 
 //verif:property C22
 //verif:bound transaction DAGs of 3 (quick) / 4 (thorough) transactions from a menu of shapes: chain, two-parent orphan with a child, diamond, double edge (both outputs of one parent spent by one child); every transaction has 1..2 inputs, 2 original outputs and (the first one) a retirement output
-//verif:bound pre-state: every transaction independently absent / pooled / orphaned; every external input and the outputs of every absent transaction independently confirmed in the store or not; orphan expiration instants arbitrary below 2^32 s; all such states that satisfy the invariant
+//verif:bound pre-state: every transaction independently absent / pooled / orphaned; every external input and the outputs of every absent transaction independently confirmed in the store or not; orphan expiration instants arbitrary below 2^32 s; every orphan indexed under each missing input and, arbitrarily, under inputs that the store has confirmed meanwhile; all such states that satisfy the invariant
 //verif:bound one operation: processTransaction of an absent transaction or of one that is currently an orphan (re-submission), RemoveTransaction of any transaction of the DAG or of an unknown hash, ExpireOrphan at an arbitrary instant
 //verif:assume the store is a consistent in-memory mock: GetTransactionsUtxo puts an unspent entry into the view exactly for the confirmed outputs; it does not change during an operation
 //verif:assume RemoveTransaction(tx) is only called for transactions of a block that has just been attached (protocol/block.go reorganizeChain, after setState): the mock store then holds the outputs of tx as confirmed
@@ -16,8 +16,8 @@ package protocol
 //verif:outside Chain.ValidateTx (validation, dust filter, error cache), double spends between pooled transactions, the expiry goroutine and locking (operations run sequentially as under tp.mtx), vote/veto outputs
 //verif:override time.Now -> verifC22Now
 //verif:override (*github.com/bytom/bytom/event.Dispatcher).Post -> verifC22Post
-//verif:obligation fn=VerifC22Step args=0,3,0;1,3,0;2,3,0;3,3,0;1,3,1;2,3,1;1,3,2;2,3,2 validate=12
-//verif:obligation fn=VerifC22Step args=0,3,1;3,3,1;0,3,2;3,3,2;0,4,0;1,4,0;2,4,0;3,4,0;1,4,1;2,4,1;1,4,2;2,4,2 tier=thorough secs=1700
+//verif:obligation fn=VerifC22Step args=0,3,0;1,3,0;2,3,0;3,3,0;1,3,1;2,3,2 validate=12
+//verif:obligation fn=VerifC22Step args=0,3,1;2,3,1;3,3,1;0,3,2;1,3,2;3,3,2;0,4,0;1,4,0;2,4,0;3,4,0;1,4,1;2,4,1;1,4,2;2,4,2 tier=thorough secs=1700
 
 import (
 	"time"
@@ -172,7 +172,8 @@ func verifC22Inv(w *verifC22World) {
 		for _, s := range o.Tx.SpentOutputIDs {
 			if w.waits(tp, s) {
 				waiting = true
-				verifAssert(tp.orphansByPrev[s][id] == o, "orphan-indexed-under-each-missing-output")
+				e := tp.orphansByPrev[s][id]
+				verifAssert(e != nil && e.Tx == o.Tx, "orphan-indexed-under-each-missing-output")
 			}
 		}
 		// (4) promoted as soon as every parent is available
@@ -182,7 +183,10 @@ func verifC22Inv(w *verifC22World) {
 	for s, m := range tp.orphansByPrev {
 		verifAssert(len(m) > 0, "no-empty-orphan-index-entry")
 		for id, o := range m {
-			verifAssert(o != nil && tp.orphans[id] == o, "no-dangling-orphan-index-entry")
+			// the entry must refer to a transaction that is still an orphan (after a
+			// re-submission the record under a confirmed input may be the older one)
+			cur := tp.orphans[id]
+			verifAssert(o != nil && cur != nil && cur.Tx == o.Tx && o.Tx.ID == id, "no-dangling-orphan-index-entry")
 			spends := false
 			if o != nil {
 				for _, x := range o.Tx.SpentOutputIDs {
@@ -244,8 +248,15 @@ func verifC22State(w *verifC22World) []int {
 		tp.orphans[tx.ID] = o
 		waiting := false
 		for _, s := range tx.SpentOutputIDs {
+			idx := false
 			if w.waits(tp, s) {
 				waiting = true
+				idx = true
+			} else if w.store.confirmed[s] {
+				// still indexed under an input that a block confirmed meanwhile
+				idx = verifBool("staleIndex")
+			}
+			if idx {
 				if tp.orphansByPrev[s] == nil {
 					tp.orphansByPrev[s] = map[bc.Hash]*orphanTx{}
 				}
